@@ -118,6 +118,11 @@ ls3 = fn(l3a: int, l3b: int, l3c: int) -> [int...] {
   l3r: [int...] = [l3a, l3b, l3c]
   return l3r
 }
+lb2 = fn(lba: bool, lbb: bool) -> [bool...] {
+  print "lb2 " + lba + " " + lbb
+  lbr: [bool...] = [lba, lbb]
+  return lbr
+}
 sl = fn(sll: [int...]) -> int {
   print "sl " + sll.len()
   sls = 0
@@ -376,6 +381,9 @@ class Ev:
         if name in ('ls1', 'ls2', 'ls3'):
             self.log.append(" ".join([name] + [str(a) for a in args]))
             return list(args)
+        if name == 'lb2':
+            self.log.append("lb2 %s %s" % (fmt(args[0]), fmt(args[1])))
+            return list(args)
         if name == 'sl':
             self.log.append("sl %d" % len(args[0]))
             return self.chk(sum((i + 1) * x for i, x in enumerate(args[0])))
@@ -524,7 +532,9 @@ def render(n):
 
 def type_of(n):
     k = n[0]
-    if k in ('t', 'lit', 'rec', 'neg', 'meth', 'index'):
+    if k == 'index':
+        return 'B' if n[1][0] == 'call' and n[1][1] == 'lb2' else 'I'
+    if k in ('t', 'lit', 'rec', 'neg', 'meth'):
         return 'I'
     if k in ('tb', 'and', 'or', 'not'):
         return 'B'
@@ -533,7 +543,7 @@ def type_of(n):
     if k == 'bin':
         return 'B' if n[1] in CMP else 'I'
     if k == 'call':
-        return {'pb': 'B', 'po': 'O', 'ls1': 'L', 'ls2': 'L', 'ls3': 'L'}.get(n[1], 'I')
+        return {'pb': 'B', 'po': 'O', 'ls1': 'L', 'ls2': 'L', 'ls3': 'L', 'lb2': 'L'}.get(n[1], 'I')
     if k == 'list':
         return 'L'
     if k == 'map':
@@ -543,13 +553,20 @@ def type_of(n):
     raise ValueError(n)
 
 
-def yields_pointer(n):
-    """An index / map-index expression evaluates to a pointer to the element (C02 finding); `(x) or y` passes
-    it through.  Such a node is never generated where the pointer is known to leak (avoidance rule)."""
+def yields_pointer(n, helpers=None):
+    """An index / map-index expression evaluates to a pointer to the element, and a function that returns one
+    directly hands the pointer on (C02 finding).  `neg` / `not` do not dereference it (pinned by
+    pin:neg_of_index / pin:not_of_index), so such a node is never generated directly under unary minus / `!`
+    (avoidance rule index_result_under_unary).  `(x) or y` dereferences x but passes y through."""
     if n[0] in ('index', 'mapidx'):
         return True
     if n[0] == 'nileval':
-        return yields_pointer(n[1]) or yields_pointer(n[2])
+        return yields_pointer(n[2], helpers)
+    if n[0] in ('and', 'or'):
+        return yields_pointer(n[1], helpers)      # a deciding left operand is left on the stack as it is
+    if n[0] == 'rec' and n[1].startswith('h'):
+        body = (helpers or {}).get(n[1])
+        return body is None or yields_pointer(body, helpers)
     return False
 
 
@@ -624,8 +641,9 @@ def root_op(n):
 
 # Shape trees use placeholders:  'T' (t leaf)  'R' (ra(k) recursive leaf)  'TB' (tb leaf)  'TO' (topt leaf)
 # and inner nodes (op, a, b) with op in:
-#   sub lt f2 m1 idx orI and or midx   and the root-only  list2 map1
+#   sub lt f2 m1 idx orI and or bidx midx   and the root-only  list2 map1
 # idx(a, b)  = (ls2(a, b))[t(k) % 2]          midx(a, b) = (map[int,int] { a: b })[t(k) - c]  (c: hit / miss)
+# bidx(a, b) = (lb2(a, b))[t(k) % 2]   (a bool taken out of a list: operand of && / || / comparison roots)
 
 I_OPS = ('sub', 'f2', 'm1', 'idx')
 
@@ -640,7 +658,7 @@ def shapes_by_type(levels):
         nI = ['T', 'R'] + [(op, a, b) for op in I_OPS for a in seen['I'] for b in seen['I']]
         nI += [('orI', a, b) for a in seen['O'] for b in seen['I']]
         nB = ['TB'] + [('lt', a, b) for a in seen['I'] for b in seen['I']]
-        nB += [(op, a, b) for op in ('and', 'or') for a in seen['B'] for b in seen['B']]
+        nB += [(op, a, b) for op in ('and', 'or', 'bidx') for a in seen['B'] for b in seen['B']]
         nO = ['TO'] + [('midx', a, b) for a in seen['I'] for b in seen['I']]
         seen = {'I': nI, 'B': nB, 'O': nO}
     return seen
@@ -682,14 +700,9 @@ def all_shapes(levels=3):
 
 
 def avoided(s):
-    """Avoidance rule index_result_as_operand: an index expression directly as a list-literal element."""
-    if isinstance(s, str):
-        return None
-    if s[0] == 'list2':
-        for c in s[1:]:
-            if not isinstance(c, str) and c[0] == 'idx':
-                return 'index_result_as_operand'
-    return avoided(s[1]) or avoided(s[2])
+    """No enumerated shape is excluded any more: an index expression as a list-literal element was repaired in
+    /repo (elements are stored by value); the reduced operator set has no unary operator."""
+    return None
 
 
 def shape_bits(s):
@@ -737,6 +750,8 @@ def instantiate(s, bits):
             return ('meth', ('mk', a), 1, [b])
         if op == 'idx':
             return ('index', ('call', 'ls2', [a, b]), ('bin', '%', ('t', nid()), ('lit', 2)))
+        if op == 'bidx':
+            return ('index', ('call', 'lb2', [a, b]), ('bin', '%', ('t', nid()), ('lit', 2)))
         if op == 'orI':
             return ('nileval', a, b)
         if op == 'and':
@@ -848,7 +863,7 @@ class Gen:
         self.in_helper = True
         base = self.k
         self.k = 100 * len(self.helpers)
-        body = self.elem('I', self.r.choice([2, 2, 3]), top=True)
+        body = self.tree('I', self.r.choice([2, 2, 3]), top=True)
         self.k = base
         self.in_helper = save
         self.helpers[name] = body
@@ -889,9 +904,9 @@ class Gen:
             if c == 'sm':
                 return ('call', 'sm', [self.map_lit(d - 1)])
             if c == 'neg':
-                return ('neg', self.elem('I', d - 1))      # never directly an index expression (avoidance rule)
+                return ('neg', self.noptr('I', d - 1))     # never directly a pointer-yielding operand (avoidance rule)
         if ty == 'B':
-            c = r.choice(['cmp'] * 4 + ['and'] * 4 + ['or'] * 4 + ['not', 'pb'])
+            c = r.choice(['cmp'] * 4 + ['and'] * 4 + ['or'] * 4 + ['not', 'pb', 'bidx', 'bidx'])
             if c == 'cmp':
                 return ('bin', r.choice(CMP), sub('I'), sub('I'))
             if c == 'and':
@@ -899,7 +914,10 @@ class Gen:
             if c == 'or':
                 return ('or', sub('B'), sub('B'))
             if c == 'not':
-                return ('not', sub('B'))
+                return ('not', self.noptr('B', d - 1))
+            if c == 'bidx':
+                return ('index', ('call', 'lb2', [sub('B'), sub('B')]),
+                        ('bin', '%', self.tree('I', max(1, d - 2)), ('lit', 2)))
             return ('call', 'pb', [sub('I'), sub('B')])
         if ty == 'O':
             c = r.choice(['mapidx'] * 3 + ['po'] * 2)      # `(o) or o2` is not typable: the fallback must be the inner type
@@ -919,12 +937,15 @@ class Gen:
             return self.map_lit(d)
         raise ValueError(ty)
 
-    def elem(self, ty, d, top=False):
-        """List-literal element / operand of unary minus / returned value of a helper: never a pointer-yielding
-        expression directly (avoidance rule index_result_as_operand)."""
+    def elem(self, ty, d):
+        """List-literal element (index expressions are allowed since elements are stored by value)."""
+        return self.tree(ty, d)
+
+    def noptr(self, ty, d):
+        """Operand of unary minus / `!`: never a pointer-yielding expression (avoidance rule index_result_under_unary)."""
         for _ in range(20):
-            e = self.tree(ty, d, top=top)
-            if not yields_pointer(e):
+            e = self.tree(ty, d)
+            if not yields_pointer(e, self.helpers):
                 return e
         return self.leaf(ty)
 
@@ -996,7 +1017,7 @@ def gen_random(seed, max_depth=4):
         except (Overflow, BadCase):
             continue
         ok = ['print', 'assign', 'block', 'loop']
-        if ty in TYPE_TEXT and not yields_pointer(tree):
+        if ty in TYPE_TEXT:
             ok += ['fn', 'method', 'closure']
         if ty == 'I':
             ok.append('concat')
